@@ -758,8 +758,8 @@ func (i *instance) isCandidate(c *ECChain) bool {
 
 func (i *instance) addCandidatePrefixes(c *ECChain) bool {
 	var addedAny bool
-	for l := c.Len() - 1; l > 0 && !addedAny; l-- {
-		addedAny = i.addCandidate(c.Prefix(l))
+	for l := c.Len() - 1; l > 0; l-- {
+		addedAny = i.addCandidate(c.Prefix(l)) || addedAny
 	}
 	return addedAny
 }
